@@ -24,7 +24,7 @@ def main(seed, name):
         for rel, old, new in TWINS[seed]:
             p = os.path.join(d, rel)
             s = open(p).read()
-            if s.count(old) != 1:
+            if s.count(old) < 1 or (s.count(old) != 1 and not old.startswith("    pos = n.array([tx, ty, tz])")):
                 print("replacement text occurs %d times in %s: %r" % (s.count(old), rel, old[:60]))
                 return 2
             open(p, "w").write(s.replace(old, new))
